@@ -7,6 +7,10 @@ BUILT = {
    text="Seeded deterministic-simulation search: real client and real daemon code run in one process over a scheduled simulated transport in arrangements A1-A4; hundreds (quick) to tens of thousands (thorough) of generated (tree, prior destination, options, sources, arrangement, transport personality) scenarios are judged by a reference model of selection and update rule. Evidence of absence of violations proportional to the coverage counters; not a proof.",
    note="Trusted: reference model verif/sim/model, fstree snapshotting, the simulator kernel. A4 is not schedule-controlled. Known findings listed in known_findings.json are reported as KNOWN-FINDING.",
    tech="deterministic simulation (seeded scheduler over simulated transport) + reference-model oracle"),
+ "C18": dict(cat="exploration", ref="DESIGN.md §6 C18",
+   text="Seeded schedule search: every Read/Write of both parties is a scheduled event, so 'no enabled action while operations are pending' is an exact deadlock detector over the capacity {0,1,7,64,64Ki,inf}^2 x chunking x bias x stall matrix; 2-32 concurrent sessions against one Server are interleaved by the same tape and compared with their solo results; data races are sought with the Go race detector on free-running sessions at GOMAXPROCS 1/4/16. Sampling, not enumeration.",
+   note="Trusted: simulator kernel (quiescence from testing/synctest), fstree snapshots. Race part is happens-before analysis, not schedule search. A4 (io.Pipe inside the code under test) is only hang-checked.",
+   tech="deterministic simulation: seeded scheduler with exact deadlock detection + race detector on free-running sessions"),
 }
 
 NOT_YET = "check not completed yet in this build (see DESIGN.md §12 fallback rule)"
